@@ -19,7 +19,7 @@ for g in ("A","B","C","D","E","F","G","H","I","J","K","L","M","N","O","P","Q"):
                    "dul.py":"C02 C03 C05 C08 C09 C27","transport.py":"C03 C05 C08 C27","association.py":"C07 C08 C09 C18 C19 C20 C23 C24 C27",
                    "utils.py":"C02 C12","_validators.py":"C12","dimse.py":"C02 C08 C15 C17 C23","dimse_messages.py":"C15 C16 C17 C19 C25",
                    "service_class.py":"C07 C20 C21 C22 C23 C26 C28","handlers.py":"C30","common.py":"C30","db.py":"C29","dsutils.py":"C21 C25",
-                   "timer.py":"C04 C05 C09","events.py":"C13 C26","fsm.py":"C04 C05 C07 C27","presentation.py":"C10 C11 C12","status.py":"C28"}
+                   "timer.py":"C04 C05 C09","events.py":"C13 C26","fsm.py":"C04 C05 C07 C27","presentation.py":"C10 C11 C12","status.py":"C28","sop_class.py":"C10 C19"}
             touched=[l.split("/")[-1].strip() for l in open(f"/verif/refactors/{name}.diff") if l.startswith("+++ ")]
             props=sorted(set(x for t in touched for x in FILES.get(t,"").split()))
         print(name, ",".join(props))
